@@ -940,7 +940,9 @@ def r14g(ctx: Context) -> None:
     # providers handed to the line loop are FileSourceProvider objects (same line splitting as the parser saw)
     line_loop = prog.method(FSH, "__process_lines_in_file")
     for site in prog.callers.get(line_loop.qualname, []):
-        arg = site.node.args[0] if site.node.args else None
+        bound = Program.bind_args(line_loop, site.node, skip_self=True)
+        first = next((a.arg for a in line_loop.node.args.args if a.arg not in ("self", "cls")), None)  # type: ignore[attr-defined]
+        arg = bound.get(first) if first else None
         typ = prog.infer(site.caller, arg) if arg is not None else None
         key = func_key(site.caller, site.node) + " [provider]"
         if typ and typ[0] == "cls" and typ[1].name == "FileSourceProvider":
